@@ -39,6 +39,13 @@ def _closure(ctx, v, depth=2):
     for _ in range(depth):
         nxt = []
         for fi, bind in frontier:
+            # functions handed around as values (`_projection_scores(..., keep=_is_node_vertex)`) belong to the closure too
+            for n in ast.walk(fi.node):
+                if isinstance(n, ast.Name) and isinstance(n.ctx, ast.Load):
+                    r_ = ctx.prog.resolve_name(fi.module, n.id)
+                    if isinstance(r_, FunctionInfo) and r_.module is fi.module and r_.cls is None and r_.qualname not in seen:
+                        seen.add(r_.qualname)
+                        nxt.append((r_, {}))
             for n in ast.walk(fi.node):
                 if not isinstance(n, ast.Call):
                     continue
@@ -95,6 +102,12 @@ def run(ctx):
     })
     files = ["hypergraphx/measures/s_centralities.py", "hypergraphx/measures/sub_hypergraph_centrality.py"]
     ctx.add_sites(res, ctx.sites(rules=("C-SIG", "K-ARG", "K-VID", "K-KEY-LOCAL"), files=files))
+    # ---- "every node receives exactly one value": the node centralities are read off the node vertices of the bipartite
+    #      projection, which therefore has to hold a vertex for every node of the hypergraph (shared with C10)
+    with res.guard("vertex per node of the bipartite projection"):
+        from ._vid import check_all_nodes_are_vertices
+
+        check_all_nodes_are_vertices(ctx, res)
     for name, (proj, functional, takes_s, node_version) in TABLE.items():
         d = f"s_centralities.{name}"
         with res.guard(f"delegation of {name}"):
